@@ -332,7 +332,7 @@ func allDownGraphs(n int) []shape {
 	}
 	var out []shape
 	for mask := 0; mask < 1<<len(pairs); mask++ {
-		var es [][2]int
+		es := [][2]int{}
 		for i, p := range pairs {
 			if mask&(1<<i) != 0 {
 				es = append(es, p)
@@ -345,7 +345,7 @@ func allDownGraphs(n int) []shape {
 
 func randomDAG(rng *rand.Rand, n int, p float64) shape {
 	perm := rng.Perm(n)
-	var es [][2]int
+	es := [][2]int{}
 	for i := 0; i < n; i++ {
 		for j := 0; j < i; j++ {
 			if rng.Float64() < p {
